@@ -54,6 +54,12 @@ Theorem C09_full_after_repairs : forall w c ops,
   Forall2 obs_ok (snd (spec_hist fx_all w (abs c) ops)) (snd (run_hist fx_all w c (map render ops))).
 Proof. exact full_after_repairs. Qed.
 
+(** "the remainder in the last": in the POSIX reading the last name receives a contiguous piece
+    of the input line (nothing rebuilt), for every IFS and every number of names. *)
+Theorem C09_read_remainder_verbatim : forall dflt seps k x,
+  exists p q, x = p ++ last (cut_runs dflt seps k (Some x)) [] ++ q.
+Proof. exact cut_runs_last_infix. Qed.
+
 Check C09_step : forall fx w c a o, R c a -> wf_op o = true -> known fx a o = None ->
   R (fst (step fx w c (render o))) (fst (spec_step fx w a o)) /\
   obs_ok (snd (spec_step fx w a o)) (snd (step fx w c (render o))).
@@ -123,5 +129,6 @@ Print Assumptions C09_step.
 Print Assumptions C09_partial.
 Print Assumptions C09_pwd.
 Print Assumptions C09_full_after_repairs.
+Print Assumptions C09_read_remainder_verbatim.
 Print Assumptions C09_refuted.
 Print Assumptions C09_refuted_read_rejoined.
